@@ -1216,8 +1216,18 @@ impl UnifiedCommandExecutor {
                 let ttl = self.storage.ttl(db, &key)?;
                 match ttl {
                     Some(duration) => {
-                        let secs = duration.as_secs() as i64;
-                        Ok(RespFrame::Integer(if secs == 0 && duration.subsec_millis() > 0 { 1 } else { secs }))
+                        // Whole seconds, rounded up, as the direct TTL command reports them
+                        let remaining_seconds: i64 = if duration.is_zero() {
+                            -2
+                        } else {
+                            let secs = duration.as_secs();
+                            if duration.subsec_nanos() > 0 {
+                                (secs + 1) as i64
+                            } else {
+                                secs as i64
+                            }
+                        };
+                        Ok(RespFrame::Integer(remaining_seconds))
                     }
                     None => {
                         if self.storage.exists(db, &key)? {
